@@ -590,5 +590,15 @@ func coveringDesigns() []DCase {
 			&dg.Method{Name: "body", Payload: pa(dg.A(dg.Obj(b...))), HTTP: &dg.HTTPMap{Routes: rt("POST", "/b")}},
 			&dg.Method{Name: "path", Payload: pa(dg.A(dg.Obj(dg.Req("errs", dg.Prim("String")), dg.Req("body", dg.Prim("Int")), dg.Req("w", dg.Prim("String")), dg.Req("query", dg.Prim("String"))))), HTTP: &dg.HTTPMap{Routes: rt("GET", "/p/{errs}/{body}/{w}/{query}")}}))
 	}
+	// 28. examples that come out as empty maps (codegen/cli.jsonExample read keys[0] unguarded until the fix):
+	// a map query parameter whose example length is drawn as 0 (the draw depends on the API name: "api0"
+	// draws 0 for MaxLength(1)), and a body object whose only attribute is excluded from examples
+	{
+		f := dg.F("mm", dg.MapOf(dg.A(dg.Prim("String")), dg.A(dg.Prim("Int")))).With(dg.Validation{MaxLen: dg.Ip(1)})
+		add(svc1("api0", &dg.Method{Name: "m", Payload: pa(dg.A(dg.Obj(f))), HTTP: &dg.HTTPMap{Routes: rt("POST", "/m"), Params: []dg.MapEntry{{Attr: "mm"}}}}))
+		g := dg.F("b", dg.Prim("String"))
+		g.A.Meta = [][]string{{"openapi:generate", "false"}}
+		add(svc1("cov_example_excluded", &dg.Method{Name: "m", Payload: pa(dg.A(dg.Obj(g))), Result: pa(dg.A(dg.Obj(cloneFields([]*dg.Field{g}, nil)...))), HTTP: &dg.HTTPMap{Routes: rt("POST", "/m")}}))
+	}
 	return out
 }
